@@ -715,6 +715,9 @@ func main() {
 	lexCases(w, r, nLex)
 	// (f) generated token lists rendered to text (all quote styles, comments) and lexed back
 	roundCases(w, r, nRound)
+	// (f2) f:in(e1,..,en) vs the written-out OR of its members as stand-alone filters (text, path,
+	// keyword fields; multi-word members in every position): same selection, by truth table
+	inOrCases(w, r, nRound/2)
 	// (g) raw-string totality fuzz of the parsers that have no byte-level model (legacy ParseQuery,
 	// ParseAggregationFilter) and of ParseSeqQL under every mapping
 	fuzz(w, r, nFuzz)
